@@ -208,7 +208,16 @@ static std::vector<char> g_tdone;
 static thread_local int t_idx = -1;
 static std::vector<std::string> g_trace;
 static void schedAdvance() { while (g_spos < g_sched.size() && (g_sched[g_spos] < 0 || g_sched[g_spos] >= (int)g_tdone.size() || g_tdone[g_sched[g_spos]])) g_spos++; }
+// free-running mode (op stress): no thread is ever parked; a thread gives up its time slice at a yield point with
+// probability g_free_yield percent (its own generator), otherwise the hook does nothing
+#include <atomic>
+#include <chrono>
+static std::atomic<int> g_free_yield{-1};
+static thread_local unsigned long long t_rng = 0x9E3779B97F4A7C15ull;
+static inline unsigned long long tRand() { t_rng ^= t_rng << 13; t_rng ^= t_rng >> 7; t_rng ^= t_rng << 17; return t_rng; }
 extern "C" void trrouting_verif_point(const char *point) {
+  int fy = g_free_yield.load(std::memory_order_relaxed);
+  if (fy >= 0) { if (fy > 0 && (int)(tRand() % 100) < fy) std::this_thread::yield(); return; }
   if (t_idx < 0) return;
   std::unique_lock<std::mutex> lk(g_sm);
   schedAdvance();
@@ -456,7 +465,9 @@ int main(int argc, char **argv) {
       while (ss >> t) toks.push_back(t);
     }
   }
-  struct rlimit rl; rl.rlim_cur = rl.rlim_max = 3ull << 30; setrlimit(RLIMIT_AS, &rl);
+#if !defined(__SANITIZE_THREAD__)
+  struct rlimit rl; rl.rlim_cur = rl.rlim_max = 3ull << 30; setrlimit(RLIMIT_AS, &rl);   // (ThreadSanitizer maps terabytes of shadow)
+#endif
   signal(SIGALRM, onSignal); signal(SIGABRT, onSignal); signal(SIGSEGV, onSignal);
   auto logger = std::make_shared<spdlog::logger>("capture", std::make_shared<CaptureSink>());
   logger->set_level(spdlog::level::debug);
@@ -523,6 +534,90 @@ int main(int argc, char **argv) {
       for (auto &tr : g_trace) out << " " << tr;
       flushLine();
       for (int i = 0; i < n; i++) { out << results[i]; flushLine(); }
+    } else if (op == "stress") {
+      // stress T R Y J N (L i1..iL)*T  then N route/access operations:
+      // R rounds; every round builds a FRESH TransitData (empty connection cache) and starts T threads together behind a
+      // barrier; thread t executes the operations i1..iL of its list (as written in even rounds, rotated in odd rounds so
+      // that the requests that meet right after a publish change from round to round) with NO forced scheduling: the hook yields with
+      // probability Y percent or does nothing; J > 0: a thread starts after a random busy wait of 0..J microseconds.
+      // Output: for every operation the DISTINCT responses seen over all rounds and threads, with their counts.
+      int T = nextInt(), R = nextInt(), Y = nextInt(), J = nextInt(), n = nextInt();
+      std::vector<std::vector<int>> lists(T);
+      for (int t = 0; t < T; t++) { lists[t] = countedInts(); for (int &x : lists[t]) if (x < 0 || x >= n) { fprintf(stderr, "stress: bad index\n"); return 2; } }
+      struct SOp { bool access; Q q; int alt; std::vector<Row> a, e; };
+      std::vector<SOp> sops;
+      for (int i = 0; i < n; i++) {
+        std::string k = nextTok();
+        SOp so; so.access = (k == "access"); so.q = readQ(); so.alt = 0;
+        if (so.access) { so.a = countedRows(); } else { so.alt = nextInt(); so.a = countedRows(); so.e = countedRows(); }
+        sops.push_back(so);
+      }
+      struct Seen { long count; int round, thread; };
+      std::vector<std::map<std::string, Seen>> seen(n);
+      long responses = 0;
+      g_kind = "stress";
+      alarm(900);
+      g_free_yield.store(Y < 0 ? 0 : Y);
+      int rounds_done = 0;
+      // the T threads live for the whole operation (one set of threads per round makes ThreadSanitizer's bookkeeping grow
+      // with every round); a round starts when the main thread has built the fresh TransitData and announces it, and the
+      // threads then meet at a spin barrier so that they enter the router together
+      std::unique_ptr<TransitData> tdr;
+      std::mutex rm;
+      std::condition_variable rcv, dcv;
+      int announced = -1, finished = 0;
+      std::atomic<long> ready{0};
+      std::vector<std::vector<std::pair<int, std::string>>> results(T);
+      std::vector<std::thread> threads;
+      for (int t = 0; t < T; t++) {
+        threads.emplace_back([&, t]() {
+          for (int r = 0; r < R; r++) {
+            { std::unique_lock<std::mutex> lk(rm); rcv.wait(lk, [&] { return announced >= r; }); }
+            t_rng = 0x9E3779B97F4A7C15ull * (unsigned long long)(r * 64 + t + 1) + 0xD1B54A32D192ED03ull;
+            const std::vector<int> &l = lists[t];
+            size_t L = l.size();
+            size_t rot = (L && (r & 1)) ? ((size_t)(r / 2 + 1) * (size_t)(t + 1)) % L : 0;   // even rounds: the lists as written
+            long jit = J > 0 ? (long)(tRand() % (unsigned long long)(J + 1)) : 0;
+            TransitData &td_r = *tdr;
+            ready.fetch_add(1);
+            unsigned spins = 0;
+            while (ready.load(std::memory_order_acquire) < (long)T * (r + 1)) { if ((++spins & 255u) == 0) std::this_thread::yield(); }
+            if (jit > 0) { auto until = std::chrono::steady_clock::now() + std::chrono::microseconds(jit); while (std::chrono::steady_clock::now() < until) {} }
+            for (size_t k = 0; k < L; k++) {
+              int i = l[(k + rot) % L];
+              const SOp &so = sops[i];
+              results[t].push_back({i, so.access ? doAccess(td_r, so.q, so.a) : doRoute(td_r, so.q, so.alt, so.a, so.e)});
+            }
+            { std::unique_lock<std::mutex> lk(rm); finished++; }
+            dcv.notify_one();
+          }
+        });
+      }
+      for (int r = 0; r < R; r++) {
+        tdr = std::make_unique<TransitData>(fetcher, cacheAll);
+        for (auto &v : results) v.clear();
+        { std::unique_lock<std::mutex> lk(rm); announced = r; }
+        rcv.notify_all();
+        { std::unique_lock<std::mutex> lk(rm); dcv.wait(lk, [&] { return finished >= T * (r + 1); }); }
+        for (int t = 0; t < T; t++)
+          for (auto &pr : results[t]) {
+            responses++;
+            auto it = seen[pr.first].find(pr.second);
+            if (it == seen[pr.first].end()) seen[pr.first][pr.second] = Seen{1, r, t}; else it->second.count++;
+          }
+        tdr.reset();
+        rounds_done++;
+      }
+      for (auto &t : threads) t.join();
+      g_free_yield.store(-1);
+      alarm(0);
+      g_kind = "stress";
+      out << "stress " << T << " " << rounds_done << " " << responses;
+      flushLine();
+      for (int i = 0; i < n; i++)
+        for (auto &kv : seen[i]) { out << "sr " << i << " " << kv.second.count << " " << kv.second.round << " " << kv.second.thread << " | " << kv.first; flushLine(); }
+      out << "stress done";
+      flushLine();
     } else if (op == "params") {
       // params route|access K (keyhex valhex)*K : L1 test of the parameter factories on a (key, value) list
       std::string kind = nextTok();
